@@ -75,3 +75,17 @@ Fixpoint live (p : pnode) : bool :=
   | PLeaf _ => true
   | PSeq pos ch => negb (Nat.eqb (length ch) 0) && (pos <? length ch)%nat && forallb live ch
   end.
+
+(* the state after k values have been taken (unchanged once the pattern has stopped) *)
+Fixpoint after (k : nat) (p : pnode) : pnode :=
+  match k with
+  | O => p
+  | S k' => match pnext p with Some (_, p') => after k' p' | None => p end
+  end.
+
+(* no group, at any depth, is empty *)
+Fixpoint no_empty_group (t : tree) : bool :=
+  match t with
+  | Leaf _ => true
+  | Node ch => negb (Nat.eqb (length ch) 0) && forallb no_empty_group ch
+  end.
